@@ -373,3 +373,17 @@ pub fn own_parse_pattern(s: &str) -> Result<Vec<bool>, ()> {
         })
         .collect()
 }
+
+/// `SparseMatrix::from_alist` for texts the harness does not trust (damaged on purpose): a panic
+/// of the parser is an error here (the harness must survive it; the checks that own the parser
+/// report it), never a crash of the harness.
+pub fn parse_untrusted(text: &str) -> Result<ldpc_toolbox::sparse::SparseMatrix, String> {
+    match dstsim::quiet(|| std::panic::catch_unwind(|| ldpc_toolbox::sparse::SparseMatrix::from_alist(text))) {
+        Ok(Ok(h)) => Ok(h),
+        Ok(Err(e)) => Err(e.to_string()),
+        Err(_) => {
+            let _ = dstsim::take_last_panic();
+            Err("the parser panicked".to_string())
+        }
+    }
+}
